@@ -469,4 +469,13 @@ def jsonLeaf (rfc : Bool) (nilBytes : Bool) (tv : TV) : Except Fail (Option JTok
   | .llDouble => .ok (some (.scalar (.str (asciiBytes ("unexpected 16".toList)))))
   | .other n => .ok (some (.scalar (.str (asciiBytes ("unexpected ".toList ++ fmtNat n)))))
 
+/-- the JSON token of a value a client set, in the document built with `jsonRFC7951 = true`
+    (the only mode the code uses): the one the model plugin validates and the one Get returns in
+    JSON encoding.  `stored`: the native value went through a store (protobuf), which leaves an
+    empty `Bytes` field nil. -/
+def jsonOf (g : GVal) (opts : List Nat) (stored : Bool) : Except Fail (Option JTok) :=
+  match toNative g opts with
+  | .ok tv => jsonLeaf true (stored && tv.bytes.isEmpty) tv
+  | .error e => .error e
+
 end OnosVerif.Value
